@@ -23,7 +23,7 @@ META = {
     ],
     "floors": {
         "quick": {"circuits_simulated": 3000, "records_compared": 3000, "detector_checks": 3000, "with_ancilla_state": 250, "from_connectivity": 250,
-                  "cycles_ge_4": 300, "refocus_off": 200, "distance_1_inputs": 40},
+                  "cycles_ge_4": 300, "refocus_off": 200, "distance_1_inputs": 40, "multi_round_experiments": 40},
         "thorough": {"circuits_simulated": 20000, "records_compared": 20000, "with_ancilla_state": 3000, "from_connectivity": 3000},
     },
 }
@@ -38,6 +38,9 @@ def gen_input(rng: random.Random) -> Dict[str, Any]:
     inp = libgen.gen_repcode_input(rng, max_distance=5, max_cycles=8, constructors=("full",), min_distance=1)
     if inp["distance"] == 5 and rng.random() < 0.5:
         inp["cycles"] = rng.randint(0, 4)
+    if inp["distance"] <= 3 and rng.random() < 0.12:
+        inp["multi_round_rounds"] = rng.sample(range(0, 6), rng.randint(1, 3))
+        inp["ancilla_state"] = None
     return inp
 
 
@@ -152,6 +155,33 @@ def check_input(inp: Dict[str, Any], acc: Acc):
                 kinds = sorted({("data" if tags[k][0] % 2 == 0 else "ancilla") + "/" + (tags[k][1] or "-") for k in bad})
                 acc.finding("record/" + "+".join(kinds), f"noiseless measurement record deviates from the protocol ({form})", case,
                             {"positions": bad[:8], "got": [got[k] for k in bad[:8]], "expected": [want[k] for k in bad[:8]], "tags": [tags[k] for k in bad[:8]]})
+    # ---- the multi-round experiment constructor: its repetition-code blocks run the same protocol, block after block.  Differential
+    #      against the single-experiment constructor checked above: record and annotation counts of the multi-round circuit are the
+    #      concatenation of the single circuits' (followed by the calibration part)
+    if inp.get("multi_round_rounds"):
+        from qce_circuit.addon_stim.factory_manager import to_stim
+        from qce_circuit.library.repetition_code.circuit_constructors import construct_repetition_code_multi_round_circuit, construct_repetition_code_circuit
+        rounds = inp["multi_round_rounds"]
+        acc.count("multi_round_experiments")
+        try:
+            mr = to_stim(construct_repetition_code_multi_round_circuit(qec_cycles=list(rounds), description=libgen.description_of(inp),
+                                                                      initial_state=libgen.initial_state_of(inp)))
+            got_mr = [int(v) for v in mr.compile_sampler(seed=7).sample(1)[0]]
+            want_mr: List[int] = []
+            det_want = 0
+            for n in rounds:
+                single = to_stim(construct_repetition_code_circuit(qec_cycles=n, description=libgen.description_of(inp), initial_state=libgen.initial_state_of(inp)))
+                want_mr += [int(v) for v in single.compile_sampler(seed=7).sample(1)[0]]
+                det_want += single.num_detectors
+            if got_mr[:len(want_mr)] != want_mr:
+                k = next((i for i, (a, b) in enumerate(zip(got_mr, want_mr)) if a != b), min(len(got_mr), len(want_mr)))
+                acc.finding("record/multi-round", "the repetition-code blocks of the multi-round experiment circuit do not give the records of the single experiments, block after block",
+                            case, {"rounds": rounds, "first_difference": k, "got": got_mr[max(0, k - 3):k + 4], "expected": want_mr[max(0, k - 3):k + 4]})
+            if mr.num_detectors != det_want:
+                acc.finding("annotations/multi-round-count", "the multi-round experiment circuit does not carry the detectors of its blocks", case,
+                            {"detectors": mr.num_detectors, "expected": det_want})
+        except Exception as exc:
+            acc.finding("export/raises", f"multi-round construction, export or sampling raises {type(exc).__name__}", case, {"error": str(exc)[:300]})
     memo_shadow.drain()
 
 
